@@ -41,56 +41,75 @@ def has_der(node):
     return any(has_der(c) for c in node[2:] if isinstance(c, list))
 
 
+EPS = 1e-13          # generous bound on the relative rounding of one operation in the generated code
+                     # (binary64 folding of literals, 15-digit sympy Floats)
+
+
 def ref_eval(node, env, mp, d=False):
     """Evaluation of a dumped flat expression with 50-digit mpmath numbers, in DUAL numbers when d is
-    set (under a der()): returns (value, time derivative or 0, sum of magnitudes of all intermediates).
-    der(e) of an arbitrary expression = derivative component by the sum/product/quotient/chain rules."""
+    set (under a der()).  Returns (value, time derivative or 0, M, E): M = sum of magnitudes of all
+    intermediates, E = rigorous-style forward bound on the absolute error the emitted code may make when it
+    evaluates the same expression with EPS-accurate operations (first-order propagation through + - * / ^
+    and the calls).  Points where the bound is useless (ill-conditioned: huge trig arguments, cancellation
+    amplified by a product, ...) raise Skip and are counted; floats of such expressions are never compared."""
     k = node[0]
     zero = mp.mpf(0)
     if k == "var":
         if node[1] == "time" and not env["decl_time"]:
-            return env["t"], mp.mpf(1), abs(env["t"])
+            return env["t"], mp.mpf(1), abs(env["t"]), zero
         v = env["var"][node[1]]
         dv = env["der"][node[1]] if d and node[1] in env["der"] else zero
         if d and node[1] not in env["der"] and node[1] not in env["const"]:
             raise Skip("derivative of %s not supplied" % node[1])
-        return v, dv, abs(v) + abs(dv)
+        return v, dv, abs(v) + abs(dv), zero
     if k == "sym":
         v = env["var"][node[1]]
-        return v, (env["der"].get(node[1], zero) if d else zero), abs(v)
+        return v, (env["der"].get(node[1], zero) if d else zero), abs(v), zero
     if k == "num":
         if node[2] not in ("int", "float"):
             raise Skip("literal kind " + node[2])
         f = Fraction(node[1])
         v = mp.mpf(f.numerator) / mp.mpf(f.denominator)
-        return v, zero, abs(v)
+        return v, zero, abs(v), (EPS * abs(v) if node[2] == "float" else zero)
     try:
         if k == "op" and node[1] == "der" and len(node) == 3:
             if has_der(node[2]):
                 raise Skip("nested der")
-            _, dv, m = ref_eval(node[2], env, mp, True)
-            return dv, zero, m + abs(dv)
+            _, dv, m, _ = ref_eval(node[2], env, mp, True)
+            # inside der(): moderate values only; the symbolic derivative is evaluated with the same operations
+            return dv, zero, m + abs(dv), 100 * EPS * (m + abs(dv))
         if k == "op" and len(node) == 4:
-            a, da, ma = ref_eval(node[2], env, mp, d)
-            b, db, mb = ref_eval(node[3], env, mp, d)
+            a, da, ma, ea = ref_eval(node[2], env, mp, d)
+            b, db, mb, eb = ref_eval(node[3], env, mp, d)
             o = node[1]
             dv = zero
+            # sympy flattens nested sums and adds the numeric terms in its own order: the rounding of a
+            # sum is bounded relative to the magnitudes of the terms, not of the result
             if o == "+":
-                v, dv = a + b, da + db
+                v, dv, e = a + b, da + db, ea + eb + EPS * (abs(a) + abs(b))
             elif o == "-":
-                v, dv = a - b, da - db
+                v, dv, e = a - b, da - db, ea + eb + EPS * (abs(a) + abs(b))
             elif o == "*":
-                v, dv = a * b, da * b + a * db
+                v, dv, e = a * b, da * b + a * db, abs(a) * eb + abs(b) * ea + ea * eb
             elif o == "/":
-                if b == 0:
-                    raise Skip("division by zero")
+                if b == 0 or eb >= abs(b) / 2:
+                    raise Skip("division by (nearly) zero")
                 v, dv = a / b, (da * b - a * db) / (b * b)
+                e = 2 * (ea + abs(v) * eb) / abs(b)
             elif o == "^":
-                if a == 0 and mp.re(b) <= 0 and b != 0:
-                    raise Skip("zero to a negative power")
+                if a == 0 and (mp.re(b) <= 0 or ea > 0) and b != 0:
+                    raise Skip("zero to a negative power / inexact zero base")
                 if abs(b) > 40 or abs(a) > 1e8:
                     raise Skip("huge power")
                 v = mp.power(a, b)
+                if a == 0 or b == 0:
+                    e = zero if ea == 0 and eb == 0 else None
+                    if e is None:
+                        raise Skip("power at an inexact zero")
+                else:
+                    if ea >= abs(a) / 2:
+                        raise Skip("base known too inexactly")
+                    e = 2 * abs(v) * (abs(b) * ea / abs(a) + abs(mp.log(a)) * eb)
                 if d:
                     if a == 0:
                         raise Skip("derivative of a power at base 0")
@@ -99,27 +118,30 @@ def ref_eval(node, env, mp, d=False):
                 raise Skip("operator " + o)
             if not mp.isfinite(v) or abs(v) > 1e60 or not mp.isfinite(dv) or abs(dv) > 1e60:
                 raise Skip("overflow")
-            return v, dv, ma + mb + abs(v) + abs(dv)
+            return v, dv, ma + mb + abs(v) + abs(dv), e + EPS * abs(v)
         if k == "op" and len(node) == 3 and node[1] in "+-":
-            a, da, ma = ref_eval(node[2], env, mp, d)
+            a, da, ma, ea = ref_eval(node[2], env, mp, d)
             if node[1] == "-":
                 a, da = -a, -da
-            return a, da, ma + abs(a)
+            return a, da, ma + abs(a), ea
         if k == "call" and len(node) == 3 and node[1] == "abs":
             if d:
                 raise Skip("derivative of abs")
-            a, da, ma = ref_eval(node[2], env, mp, d)
-            return abs(a), zero, ma + abs(a)
+            a, da, ma, ea = ref_eval(node[2], env, mp, d)
+            return abs(a), zero, ma + abs(a), ea
         if k == "call" and len(node) == 3 and node[1] in ("sin", "cos", "tan"):
-            a, da, ma = ref_eval(node[2], env, mp, d)
+            a, da, ma, ea = ref_eval(node[2], env, mp, d)
+            if abs(a) > 1e6 or ea > 1e-3:
+                raise Skip("ill-conditioned trigonometric argument")
             v = getattr(mp, node[1])(a)
             dv = zero
+            slope = 1 + abs(v) ** 2 if node[1] == "tan" else 1
             if d:
                 dv = {"sin": lambda: mp.cos(a), "cos": lambda: -mp.sin(a),
                       "tan": lambda: 1 / mp.cos(a) ** 2}[node[1]]() * da
-            if not mp.isfinite(v) or abs(v) > 1e30 or abs(dv) > 1e30:
+            if not mp.isfinite(v) or abs(v) > 1e6 or abs(dv) > 1e30:
                 raise Skip("pole")
-            return v, dv, ma + abs(v) + abs(dv)
+            return v, dv, ma + abs(v) + abs(dv), 2 * slope * ea * mp.exp(abs(mp.im(a))) + EPS * (abs(v) + 1)
     except ZeroDivisionError:
         raise Skip("division by zero")
     raise Skip("outside the subset: %s" % node[:2])
@@ -224,16 +246,23 @@ def judge(case, res):
                "const": {n for n, p in syms if "parameter" in p or "constant" in p}}
         for ei, (l, r) in enumerate(res["eqs"]):
             try:
-                a, _, ma = ref_eval(l, env, mp)
-                b, _, mb = ref_eval(r, env, mp)
-            except Skip:
+                a, _, ma, ea = ref_eval(l, env, mp)
+                b, _, mb, eb = ref_eval(r, env, mp)
+            except Skip as sk:
                 st["skipped"] += 1
+                if "ill-conditioned" in str(sk):
+                    st["illcond"] = st.get("illcond", 0) + 1
                 continue
             except KeyError:
                 st["skipped"] += 1
                 continue
             want = a - b
-            M = ma + mb + abs(want) + 1
+            tol = 4 * (ea + eb + EPS * (abs(a) + abs(b))) + mp.mpf("1e-11") * abs(want) + mp.mpf("1e-25")
+            if tol > mp.mpf("1e-6") * (abs(a) + abs(b)):
+                # the residual cannot be compared meaningfully at this point (cancellation / amplification)
+                st["skipped"] += 1
+                st["illcond"] = st.get("illcond", 0) + 1
+                continue
             got = res["vals"][pi][ei]
             st["evals"] += 1
             if got[0] in ("nonnumeric", "error"):
@@ -242,7 +271,7 @@ def judge(case, res):
                           % (ei, pi, got, mp.nstr(want, 20)), {"equation": ei, "point": pi, "line": res["eqlines"][ei]}))
                 continue
             g = mp.mpc(mp.mpf(got[0]), mp.mpf(got[1]))
-            if abs(g - want) > mp.mpf("1e-9") * M:
+            if abs(g - want) > tol:
                 tag = "eval-mismatch"
                 if decl_time and (refs_var(l, "time") or refs_var(r, "time")):
                     tag = "declared-variable-named-time"
@@ -666,7 +695,7 @@ def run(ctx):
         known_now[t] = any(tag == t for tag, _, _ in judge(c, r)[0]) if not r.get("parse_failed") else None
     T['child'] = round(time.time() - t0, 1); t0 = time.time()
     # ---- (a) property oracle ----
-    evals = skipped = 0
+    evals = skipped = illcond = 0
     shapes = set()
     labels = {}
     harness_bad = []
@@ -678,6 +707,7 @@ def run(ctx):
         F, st = judge(c, r)
         evals += st["evals"]
         skipped += st["skipped"]
+        illcond += st.get("illcond", 0)
         for tag, why, detail in F:
             core.report(ctx, tag, why, {"input": c, "detail": detail})
         for line in r.get("eqlines", []):
@@ -723,7 +753,8 @@ def run(ctx):
                        "non-trivial = distinct emitted equation lines with >= 2 operators"
                        % (len(sysc), n_rand, ctx.scaled(8, 60), n_corpus, evals, skipped))
     ctx.cov["samples"] = sorted(shapes, key=len)[len(shapes) // 2: len(shapes) // 2 + 3] or ["(none)"]
-    ctx.notes["input_distribution"] = {"models": labels, "cases_outside_modelled_subset": outside,
+    ctx.notes["input_distribution"] = {"models": labels, "evaluation_points_skipped": skipped,
+                                       "of_which_ill_conditioned_not_compared": illcond, "cases_outside_modelled_subset": outside,
                                        "operators_total": sum(c.get("n_ops", 0) for c in cases)}
     ctx.assumptions += [
         "token level: the step from the emitted characters to Python tokens (Python's tokenizer) is not modelled; the "
